@@ -35,13 +35,18 @@ const (
 )
 
 type meCfg struct {
-	Init []string
-	R, D time.Duration
-	Late bool
+	Init  []string
+	R, D  time.Duration
+	Late  bool
+	Setup []string // non-initial root: operations applied before the exploration starts
 }
 
 func (c meCfg) String() string {
-	return fmt.Sprintf("init=%s r=%dms d=%dms late=%v", strings.Join(c.Init, ""), c.R/ms, c.D/ms, c.Late)
+	s := fmt.Sprintf("init=%s r=%dms d=%dms late=%v", strings.Join(c.Init, ""), c.R/ms, c.D/ms, c.Late)
+	if len(c.Setup) > 0 {
+		s += " root=" + strings.Join(c.Setup, ";")
+	}
+	return s
 }
 
 func (c meCfg) class() string {
@@ -123,6 +128,12 @@ func newMEWorld(s *vsched.Sched, cfg meCfg, prop string) *meWorld {
 		w.st[e] = w.newRef()
 	}
 	w.afterTransition("init", cfg.Init[0], true)
+	for _, op := range cfg.Setup {
+		if w.poisoned {
+			break
+		}
+		w.Do(op)
+	}
 	return w
 }
 
@@ -634,6 +645,17 @@ func meConfigs(thorough bool) []meCfg {
 			out = append(out, meCfg{Init: in, R: tm[0], D: tm[1]})
 		}
 	}
+	// non-initial roots: a delayed switch (to A) already pending
+	for _, tm := range timers {
+		if tm[1] == 0 {
+			continue
+		}
+		setup := []string{"avail(B,1)", "avail(A,1)"}
+		if tm[0] > 0 {
+			setup = []string{"avail(B,1)", fmt.Sprintf("adv(%d)", tm[0]/ms), "avail(A,1)"}
+		}
+		out = append(out, meCfg{Init: []string{"A", "B", "C"}, R: tm[0], D: tm[1], Setup: setup})
+	}
 	if thorough {
 		for _, tm := range timers[1:] {
 			out = append(out, meCfg{Init: []string{"A", "B"}, R: tm[0], D: tm[1], Late: true})
@@ -681,7 +703,11 @@ func parseMECfg(s string) meCfg {
 	for _, ch := range in {
 		l = append(l, string(ch))
 	}
-	return meCfg{Init: l, R: time.Duration(r) * ms, D: time.Duration(d) * ms, Late: late}
+	c := meCfg{Init: l, R: time.Duration(r) * ms, D: time.Duration(d) * ms, Late: late}
+	if i := strings.Index(s, " root="); i >= 0 {
+		c.Setup = strings.Split(s[i+6:], ";")
+	}
+	return c
 }
 
 func replayME(c *vsched.RunCtx, prop string) {
